@@ -2,6 +2,8 @@ import SkoolVerif.Prelude.SimProto
 import SkoolVerif.Gen.SimHandlers
 import SkoolVerif.Gen.Accelerators
 import SkoolVerif.Model.AccelWalk
+import SkoolVerif.Gen.PyLoad
+import SkoolVerif.Gen.CLoad.read_port
 /-!
 Line-protocol driver for C13 (LOAD speed-ups).  Ops:
 
@@ -10,7 +12,9 @@ Line-protocol driver for C13 (LOAD speed-ups).  Ops:
 * `deca <jr> <jp> ; regs ; pc t iff ; mem` the `dec_a` hook on one state
 * `lstep <impl> ; run cfg ; tape cfg ; ts ; regs ; pc t iff im halt memptr ; edges ; blocks ; accelerators ; mem`
      one iteration of the `LoadTracer.run` / `CSimulator.load` loop (instruction incl. port read
-     through the modelled `_read_port`, frame bookkeeping, tape advance, stop conditions)
+     through the modelled `_read_port`, frame bookkeeping, tape advance, stop conditions); when an accelerator matched, the
+     fast-forward translated from the implementation's own source (`PyLoad.read_port_ffwd` / `CSimH.Load.read_port_ffwd`) is run
+     on the same inputs and a disagreement with the hand model is reported in the message field
 -/
 open Proto SimProto Z80 LoadAccel LoadTape AccelWalk
 
@@ -92,7 +96,22 @@ def doLStep (line : String) : String :=
             | none => none
             | some pr =>
               let s1 := { s with reg := pr.regs, t := pr.t, ins := [pr.value] }
-              some (Sim.step cfg s1, pr.ts, pr.msgs,
+              -- the fast-forward as TRANSLATED from the source of this implementation (Gen/PyLoad.lean: `_read_port.func`,
+              -- Gen/CLoad/read_port.lean: `read_port`) on the same inputs: it must be what the hand model `accelerate` computed
+              -- (registers, clock, iterations skipped, parity of the edge index = the value returned)
+              let derivedOk : Bool := match pr.hit.bind findAcc with
+                | none => true
+                | some a =>
+                  if impl = "c" then
+                    let r := CSimH.Load.read_port_ffwd cfg a ts s.pc { index := ts.index, loops := 0, tsl_miss := 1, hits := 0 } s
+                    r.1.reg == pr.regs && r.1.t == pr.t && r.2.loops == pr.loops && ((r.2.index % 2 == 0) == (pr.value == 191))
+                      && r.2.tsl_miss == 0 && r.2.hits == 1
+                  else
+                    match PyLoad.read_port_ffwd cfg a ts ts.index 0 0 s with
+                    | none => false
+                    | some r => r.1.reg == pr.regs && r.1.t == pr.t && r.2.loops == pr.loops && ((r.2.index % 2 == 0) == (pr.value == 191))
+                                  && r.2.hits == 1
+              some (Sim.step cfg s1, pr.ts, pr.msgs ++ (if derivedOk then [] else ["DERIVED-FAST-FORWARD-DIFFERS-FROM-MODEL"]),
                     s!"in loops={pr.loops} hit={pr.hit.getD "-"} miss={if pr.miss then 1 else 0}")
       match res with
       | none => "err index"
